@@ -115,6 +115,8 @@ def edits_for(vals, interp):
 
 def model_edit(vals, e):
     vals = list(vals)
+    if e[0] == "refread":
+        return vals
     if e[0] == "append":
         vals.append(e[1])
     elif e[0] == "remove":
@@ -129,6 +131,12 @@ def model_edit(vals, e):
 
 
 def impl_edit(lst, e):
+    if e[0] == "refread":
+        got = [r.value for r in lst.iter_value_references()]
+        want = list(lst)
+        if got != want:
+            raise AssertionError("values read through references %r differ from the list %r" % (got, want))
+        return
     if e[0] == "append":
         lst.append(e[1])
     elif e[0] == "remove":
@@ -151,11 +159,11 @@ def _parse(text):
     return parse_deb822_file(text.splitlines(True), accept_files_with_error_tokens=True)
 
 
-def _wellformed(f):
+def _wellformed(f, place="mid"):
     if f.find_first_error_element() is not None:
         return False
     ps = list(f)
-    return len(ps) == 1 and [str(k) for k in ps[0].keys()] == ["X", "F", "Y"]
+    return len(ps) == 1 and [str(k) for k in ps[0].keys()] == (["X", "F", "Y"] if place == "mid" else ["X", "F"])
 
 
 class _Abort(Exception):
@@ -166,10 +174,11 @@ def run_case(case):
     """-> (violations, final model list or None)"""
     interp, v, sessions = case["interp"], case["value"], case["sessions"]
     I = _interp(interp)
-    doc = "X: 1\nF:" + v + "\nY: 2\n"
+    place = case.get("place", "mid")
+    doc = "X: 1\nF:" + v + ("\nY: 2\n" if place == "mid" else "")
     try:
         f = _parse(doc)
-        ok = _wellformed(f)
+        ok = _wellformed(f, place)
     except Exception as e:
         return [("list/valid-doc-raises/" + interp, "parses", "%s: %s" % (type(e).__name__, e))], None
     if not ok:
@@ -220,8 +229,10 @@ def run_case(case):
             return [("list/%s/raises/%s" % (last[0], interp), vals, "%s: %r" % (type(ex).__name__, ex))], None
         out = f.dump()
         sig = "list/%s/%%s/%s" % (last[0], interp)
-        if (abort or not edits) and out != prev_dump:
+        if (abort or all(e[0] == "refread" for e in edits)) and out != prev_dump:
             return [(sig % "document-changed", prev_dump, out)], None
+        if place != "mid":
+            continue          # (only no-change sessions are run on the unterminated last field)
         prev_dump = out
         try:
             f2 = _parse(out)
@@ -230,7 +241,7 @@ def run_case(case):
             return [(sig % "invalid-doc", "parses", "%s: %r on %r" % (type(ex).__name__, ex, out))], None
         if not ok:
             return [(sig % "invalid-doc", "one paragraph X F Y, no error element", out)], None
-        if not vals and edits and not abort:
+        if not vals and [e for e in edits if e[0] != "refread"] and not abort:
             return [(sig % "empty-list-accepted", "ValueError or a non-empty list", out)], None
         if not out.startswith("X: 1\nF:") or not out.endswith("\nY: 2\n") or out.count("\nY: 2\n") != 1:
             return [(sig % "nonlocal", "X: 1\\nF:...\\nY: 2\\n", out)], None
@@ -310,6 +321,18 @@ def run_unit(u, tier, seed):
                 part.nontrivial += 1
             if L == 3:
                 part.sample(dict(base, sessions=[]))
+            # sessions that change nothing (values read through references, an empty `with`), also on a field that is
+            # the unterminated last line of the document: the dump must stay byte-identical
+            for place in ("mid", "last-open"):
+                if place == "last-open" and v.endswith(("\n", " ", "\t")):
+                    continue
+                for sessions in ([[("refread",)]], [[]], [[("refread",)], []]):
+                    c = dict(base, sessions=sessions, place=place, views="same")
+                    badn, _x = run_case(c)
+                    part.evaluations += 1
+                    part.traces += 1
+                    for sig, exp, obs in badn:
+                        part.violation(sig, c, exp, obs, rank=L)
         else:
             vals = split_oracle(v, interp)
         if L > L1:
